@@ -25,6 +25,8 @@ MENU = [
     ("fix", "-S", "0", "-B", "5"), ("fix", "-S", "0", "-B", "6"), ("fix", "-S", "2", "-B", "2"), ("fix", "-S", "3", "-B", "3"),
     ("check", "-S", "1", "-B", "2"), ("fix", "-B", "2", "-f", "a"), ("fix", "-B", "3", "-m"),
     ("fix", "-b"), ("check", "-b"), ("fix", "-e", "-f", "a"), ("fix", "-b", "-d", "d2"),
+    # environment answers: the file system cannot time-stamp symbolic links (ENOTSUP) / cannot create them (EPERM)
+    ("pool", "@nolinktime"), ("pool", "@nosymlink"),
 ]
 THREADED = [("sync",), ("scrub", "-p", "full"), ("fix",), ("check",)]
 
@@ -96,7 +98,12 @@ def job(j):
         zero = perm.recorded_zero_nsec(c)
     except (FileNotFoundError, C.ContentError):
         c, zero = None, set()
-    res = L.run(cmd[0], *cmd[1:], det=not threaded)
+    env = None
+    if "@nolinktime" in cmd:
+        env = {"VP_FAIL": "%s/pool/*:lutime:0+:95" % L.root}
+    elif "@nosymlink" in cmd:
+        env = {"VP_FAIL": "%s/pool/*:symlink:0+:1" % L.root}
+    res = L.run(cmd[0], *[a for a in cmd[1:] if not str(a).startswith("@")], det=not threaded, env=env)
     v = perm.violations(L, cmd[0], res, c, zero)
     ntouched = len(perm.touched_paths(L, res))
     return dict(viols=v, rc=res.rc, ntouched=ntouched, signal=res.signal)
